@@ -98,3 +98,9 @@ chk('C20', 'exploration',
     'under all combinations of --eol, --fixcounting and the three output modes; outputs are tokenised independently and compared with the input, re-normalised for the fixpoint, and recounted for the repair claim.',
     'Trusted: vlib/ref_token.py and vlib/ref_envelope.py; one input file per invocation; ASCII inputs.',
     'black-box runtime monitor of the CLI with independent tokenizer/recount oracles', 'DESIGN.md 5 C20')
+chk('C18', 'exploration',
+    'Histories of 6-20 documents (mixed maps, versions, valid/faulty, repeats, two parameter objects with different charsets re-used throughout) run in one process; every result is compared '
+    'with the result of the same document in a fresh interpreter started under a different PYTHONHASHSEED (hundreds of fresh processes per run). Sentinels over every mutable default argument and '
+    'module-level container of the loaded pyx12 modules are compared after each document. Held on the histories produced.',
+    'Trusted: the normalisation of the exempted acknowledgement/HTML fields in checks/c18.py.',
+    'differential runtime monitoring (history vs fresh interpreter, varying hash seed) + state sentinels at quiescent points', 'DESIGN.md 5 C18')
